@@ -1,2 +1,3 @@
 import ArimProofs.C01
 import ArimProofs.C13
+import ArimProofs.C15
